@@ -149,8 +149,13 @@ def lookup_loops(F):
         if good:
             passed = gi.term(call["args"][slot[0]])
             grets = [r for r in returns(gi)]
-            cond = enclosing_if_cond(gi, grets[0]["id"]) if grets else (None, None)
-            good = len(grets) == 1 and gi.term(grets[0]["value"]) == passed and cond[0] is not None and gi.strip(cond[0]) == call["id"] and cond[1]
+            # ... on a path where the helper's verdict is known to be true (`if (find(..)) return i;` or `if (!find(..)) throw; return i;`)
+            good = len(grets) == 1 and gi.term(grets[0]["value"]) == passed
+            if good:
+                eng_g = Engine(F, Summaries(F))
+                eng_g.analyze(gi, frozenset())
+                site_g = final_site_facts(eng_g, gi, grets[0]["id"]) or set()
+                good = ("true", gi.term(call["id"])) in site_g
         if good:
             out.append(ok("R-SIB", inst, gi.loc(call["id"]), gi.qn, "the index returned is the one whose name matched", "the helper's result slot, on its true verdict"))
         else:
